@@ -185,7 +185,7 @@ def kinds():
     # its buffers between two calls is a history like any other, and the library does not change them either
     def mk_owned():
         bufs = [bytearray(b'K' * 64), bytearray(b'k' * 20), bytearray(b'md6 key'), bytearray(b'skein key'), Bits(K16), Bits(K16, bitorder=1)]
-        return [HMAC(SHA2(256), bufs[0]), HMAC(SHA2(256), bufs[1]), md6r(256, bufs[2], 1), Skein(256, 256, key=bufs[3]), AES(bufs[4]), Serpent(bufs[5]), DES(K8), bufs]
+        return [HMAC(SHA2(256), bufs[0]), HMAC(SHA2(256), bufs[1]), md6r(256, bufs[2], 1), Skein(256, 256, key=bufs[3]), AES(bufs[4]), Serpent(bufs[5]), DES(K8), Chacha(Bits(K16, bitorder=1), 8), bufs]
     def wipe(o):
         # (Skein reads its key attribute at every call, by reference, like DES reads K: its buffer is the object's configuration
         #  and is left alone here; HMAC, MD6, AES and Serpent take their key at construction)
@@ -195,6 +195,11 @@ def kinds():
                 b += b'zz'
             else:
                 b.ival = 0
+    def stepped_nonce(o):
+        v = Bits(IV16[:8], bitorder=1)
+        a = o[7].enc(v, M1)
+        v.ival = v.ival + 1            # the caller's message counter, kept in one Bits object
+        return (a, o[7].enc(v, M1))
     def des_bits_block(o):
         blk = Bits(IV16[:8], bitorder=1)
         c1 = o[6].enc(blk); c2 = o[6].enc(blk)
@@ -202,13 +207,28 @@ def kinds():
     B16 = bytes(range(65, 81))
     K['caller-owned buffers'] = (mk_owned, [('mac(key=bytearray of one block)', lambda o: o[0](M1)), ('mac(key=short bytearray)', lambda o: o[1](M1)), ('md6(key=bytearray)', lambda o: o[2](M1)),
                                             ('skein(key=bytearray)', lambda o: o[3](M1)), ('aes(Bits key).enc', lambda o: o[4].enc(B16)), ('aes(Bits key).dec', lambda o: o[4].dec(B16)),
-                                            ('serpent(Bits key).enc', lambda o: o[5].enc(B16)), ('des.enc(Bits block) twice', des_bits_block),
+                                            ('serpent(Bits key).enc', lambda o: o[5].enc(B16)), ('des.enc(Bits block) twice', des_bits_block), ('chacha.enc with one nonce object stepped in place', stepped_nonce),
                                             ('~the caller wipes and grows its key buffers', lambda o: wipe(o))], None)
     return K
 
+def _copies(o):
+    """perturbation present in every alphabet: the object is shallow-copied, deep-copied and pickled (whatever of these it
+    supports); the original must answer afterwards like a fresh object"""
+    import copy, pickle
+    for f in (copy.copy, copy.deepcopy, lambda x: pickle.loads(pickle.dumps(x))):
+        try:
+            f(o)
+        except CaseTimeout:
+            raise
+        except Exception:
+            pass
+    return None
+
 _K = [None]
 def K():
-    if _K[0] is None: _K[0] = kinds()
+    if _K[0] is None:
+        ks = kinds()
+        _K[0] = {n: (v[0], list(v[1]) + [('~copy, deep-copy and pickle the object', _copies)], v[2]) for n, v in ks.items()}
     return _K[0]
 
 def kind_names():
@@ -224,7 +244,9 @@ ALPHA = {'SHA1': 7, 'SHA0': 4, 'SHA2-256': 7, 'SHA2-512/224': 7, 'MD4': 7, 'MD5'
          'AES128': 5, 'AES256': 3, 'DES': 5, 'TDEA': 4, 'Serpent': 4, 'Threefish256': 5, 'ECB-AES': 7, 'CBC-AES': 7, 'CBC-DES-X923': 7, 'ECB-TDEA': 7,
          'ECB-AES-nopadding': 4, 'CTR-AES': 5, 'CTR-AES-wrapping-counter': 4, 'CTS_ECB-AES': 5, 'CTS_CBC-DES': 4, 'Salsa20': 7, 'Chacha-128-12': 5, 'crc (functions)': 6, 'knapsack (functions)': 5, 'AES-family (integer-equal keys)': 5, 'Threefish-family': 6, 'Skein-family (same No)': 5,
          'Chacha/Salsa-family': 5, 'Nilsimsa-family': 4, 'TLSH-family': 4, 'SHA-family': 8, 'Keccak-family': 5, 'Blake-family': 6, 'MD6-family': 4,
-         'HMAC-family (shared hash object)': 4, 'mode-family (shared cipher object)': 6, 'caller-owned buffers': 9}
+         'HMAC-family (shared hash object)': 4, 'mode-family (shared cipher object)': 6, 'caller-owned buffers': 10}
+
+ALPHA = {k: v + 1 for k, v in ALPHA.items()}          # + the copy perturbation appended by K()
 
 def selftest():
     ks = K()
